@@ -1,6 +1,7 @@
 use crate::engine::Ctx;
 
 pub mod c01;
+pub mod c02;
 pub mod c03;
 pub mod c05;
 pub mod c06;
@@ -17,6 +18,7 @@ pub type Runner = fn(&Ctx);
 pub fn lookup(id: &str) -> Option<(&'static str, Runner)> {
     Some(match id {
         "C01" => ("C01", c01::run as Runner),
+        "C02" => ("C02", c02::run as Runner),
         "C03" => ("C03", c03::run as Runner),
         "C05" => ("C05", c05::run as Runner),
         "C06" => ("C06", c06::run as Runner),
